@@ -89,6 +89,9 @@ def handle (j : Json) : Json :=
     match parse tbl cs with
     | .ok it => Json.mkObj [("ok", itemToJson it)]
     | .error e => errToJson e
+  | "hashvar" =>
+    Json.mkObj [("accepted", hashvarAccepted Ptera.Generated.Tables.validHashvars
+      ((j.getObjValAs? String "s").toOption.getD ""))]
   | "select0" =>
     match select0 tbl cs with
     | .ok c => Json.mkObj [("ok", callToJson c)]
